@@ -166,6 +166,35 @@ def c02_build(n: int, w: int, share: bool, twin: bool, lw: bool, bare: bool, p0:
   return True
 
 
+def c02_temporaries(n: int, v: int) -> bool:
+  """
+  Many nodes of a user-registered type whose flatten yields temporary (key, value) tuples: every distinct Config below
+  them is still invoked exactly once and lands in its own place (a memo entry must pin the object whose id it uses).
+  Under CrossHair temporaries stay alive, so address reuse - the only way this can fail - shows in the concrete smoke
+  run of this harness (n = 400), not on symbolic paths.
+  require: 2 <= n <= 400
+  """
+  for c in (2, 3, 40, 400):
+    if n == c:
+      n = c
+      break
+  else:
+    n = 2
+  kids = [fdl.Config(fam.g1, x=v + i) for i in range(n)]
+  root = fdl.Config(fam.g0, x=[fam.Table({'a': k, 'b': i}) for i, k in enumerate(kids)])
+  sigs.reset_log()
+  built = fdl.build(root)
+  names = [nm for nm, _ in sigs.LOG]
+  note('c02t', n)
+  if names.count('g1') != n or names.count('g0') != 1:
+    return False
+  tables = built.pos[0]
+  for i, t in enumerate(tables):
+    if not isinstance(t, fam.Table) or t.d['b'] != i or t.d['a'].pos[0] != v + i:
+      return False
+  return len({id(t.d['a']) for t in tables}) == n
+
+
 def obligations(tier, seed):
   cubes = []
   allk = [(a, b, c) for a in (False, True) for b in (False, True) for c in (False, True)]
@@ -201,4 +230,6 @@ def obligations(tier, seed):
                      extra_smokes=[dict(smoke, w=6, n=3, t3x=-1, t3y=-1, t2x=0, t2y=0),
                                    dict(smoke, w=0, share=False, t3x=0, t3y=0),
                                    dict(smoke, w=3, twin=False, bare=True, t2x=-1, t2y=-1, t3y=-1),
-                                   dict(smoke, w=5, twin=False, bare=True, share=False, t1x=-1, t2y=-1)])]
+                                   dict(smoke, w=5, twin=False, bare=True, share=False, t1x=-1, t2y=-1)]),
+          Obligation('c02_temporaries', c02_temporaries, [Cube(f'n{n}', [], dict(n=n)) for n in (2, 3, 40)], timeout=120,
+                     path_timeout=60, smoke=dict(n=400, v=7), extra_smokes=[dict(n=40, v=0)])]
